@@ -22,9 +22,21 @@ def loop_shape(fn, ctx, L):
     out["var"] = var
     out["start"] = ctx.key(v["init"])
     # increment: ++v, v++, v += 1
-    inc = fn.nodes[n["inc"]] if n.get("inc") is not None else None
     stepok = False
-    if inc is not None:
+    incparts = []
+    if n.get("inc") is not None:
+        todo = [n["inc"]]
+        while todo:
+            x = todo.pop()
+            xn = fn.nodes[x]
+            if xn["k"] == "bin" and xn["op"] == ",":
+                todo.extend([xn["l"], xn["r"]])
+            elif xn["k"] == "call" and xn.get("ck") == "op" and xn.get("op") == "," and len(xn["args"]) == 2:
+                todo.extend(xn["args"])
+            else:
+                incparts.append(x)
+    for x in incparts:
+        inc = fn.nodes[x]
         if inc["k"] == "un" and inc["op"] == "++" and ctx.key(inc["sub"], inline=False)[:2] == var[:2]:
             stepok = True
         if inc["k"] == "call" and inc.get("ck") == "op" and inc.get("op") == "++" and ctx.key(inc["args"][0], inline=False)[:2] == var[:2]:
@@ -32,7 +44,7 @@ def loop_shape(fn, ctx, L):
         if inc["k"] == "bin" and inc["op"] == "+=" and ctx.key(inc["l"], inline=False)[:2] == var[:2] and ctx.key(inc["r"]) == ("lit", 1):
             stepok = True
     # variable modified in the body?
-    muts = [j for j in ctx.mut.get(v["d"], []) if j != n.get("inc")]
+    muts = [j for j in ctx.mut.get(v["d"], []) if j not in incparts and j != n.get("inc")]
     if muts:
         stepok = False
     if not stepok or n.get("c") is None:
